@@ -32,3 +32,25 @@ func TestX(t *testing.T) {
 	comp("description no arg", []string{"m"}, m(`leaf a { type string; description; }`))
 	comp("pattern a)(b", []string{"m"}, m(`leaf a { type string { pattern "a)(b"; } }`))
 }
+
+func TestY(t *testing.T) {
+	m := func(b string) []string { return []string{`module m { namespace "urn:m"; prefix m; ` + b + ` }`} }
+	for _, dv := range []string{`deviation /m:n/m:x { deviate not-supported; }`, `augment /m:n { leaf z { type string; } }`, `deviation /m:n/m:c/m:x2 { deviate replace { type int8; } }`, `augment /m:n/m:c { leaf z { type string; } }`} {
+		res := sgc.CompileTexts([]string{"m", "d"}, []string{m(`notification n { leaf x { type string; } leaf y { type string; } container c { leaf x2 { type string; } } }`)[0], `module d { namespace "urn:d"; prefix d; import m { prefix m; } ` + dv + ` }`}, sgc.Opts{Features: sgc.AllFeatures{}})
+		fmt.Println(dv, "=>", res.Describe())
+		if res.OK() {
+			for _, mod := range res.MS.Modules() {
+				for k, n := range mod.Notifications() {
+					var names []string
+					for _, ch := range n.Schema().Children() {
+						names = append(names, ch.Name())
+						for _, gc := range ch.Children() {
+							names = append(names, ch.Name()+"/"+gc.Name()+":"+fmt.Sprintf("%T", gc.Type()))
+						}
+					}
+					fmt.Println("   ", k, names)
+				}
+			}
+		}
+	}
+}
